@@ -240,6 +240,14 @@ func c02(r *Run) {
 		r.guarded("C02.R2:recycle-only-unexposed:"+siteKey(w, site), "outside Release/Close a consumed node is recycled only after seeing that its memory was never handed out (readExposed()==false)", fn, site, callResultAtom(readExposed, false), nil, "guarded by readExposed()==false")
 	}
 
+	// re-using a node's block in place (node.Reset: offsets to 0, buf truncated) overwrites whatever was handed out from
+	// it: like recycling, only after seeing that nothing of it is exposed (today nothing calls Reset; a new caller is judged)
+	if nodeReset := w.Fn("(*linkBufferNode).Reset"); nodeReset != nil {
+		for _, site := range callSitesOf(w, nodeReset) {
+			fn := site.Parent()
+			r.guarded("C02.R2:reset-only-unexposed:"+siteKey(w, site), "a node is reset for re-use in place only after seeing that its memory was never handed out (readExposed()==false): Reset itself only looks at Slice references, not at unreleased Next/Peek results", fn, site, callResultAtom(readExposed, false), nil, "guarded by readExposed()==false")
+		}
+	}
 	// ---- R3 exposed pool blocks are freed only on release --------------------------------------------
 	// exposed fields: a Reader method returns a slice of a value that is also stored into (or loaded from) the field
 	exposedFields := map[string]bool{}
